@@ -66,6 +66,8 @@ def run():
         for kern in ("tpcn", "rwm"):
             cells.append(dict(target="gauss2", N=N, n_total=8 * N, mode="vec", kernel=kern, resample="syst", clustering=False, volume_variation=1.0))
             cells.append(dict(target="gauss4", N=N, n_total=8 * N, mode="vec", kernel=kern, resample="mult", clustering=False))
+            if kern == "tpcn":     # posterior 1000x narrower than the prior; RWM's finite-N error there exceeds any fair allowance
+                cells.append(dict(target="gauss2", N=N, n_total=8 * N, mode="vec", kernel=kern, resample="syst", clustering=False, tkw=dict(half=500.0, rho=0.5)))
     Nmax = max(Ns)
     store = {}
 
